@@ -464,6 +464,24 @@ theorem numeric_canon {α} (p : RW α) (h : p.Numeric) (bs : Bytes) : p.Canon bs
     · rename_i x r hx
       exact ⟨h.1 bs x r hx, ih x (h.2 x) r⟩
 
+example : (RW.prim int32 0 (fun _ => RW.prim bits64 0 (fun x => RW.done x))).Numeric :=
+  ⟨int32_decenc, fun _ => ⟨bits64_decenc, fun _ => trivial⟩⟩
+
+/-- an int and a 4-character text: read from canonical bytes and re-written identically; a text field padded
+with a tab is not canonical (it would be re-written with blanks) -/
+private def pp : RW Bytes := .prim int32 0 (fun _ => .prim (str 4) [] (fun s => .done s))
+example : pp.read [7, 0, 0, 0, 65, 66, 32, 32, 9] = some ([65, 66], [9]) ∧
+    (pp.reseed [7, 0, 0, 0, 65, 66, 32, 32, 9]).write.1 = [7, 0, 0, 0, 65, 66, 32, 32] := by decide
+example : pp.Canon [7, 0, 0, 0, 65, 66, 32, 32, 9] := by
+  have h1 : int32.dec [7, 0, 0, 0, 65, 66, 32, 32, 9] = some (7, [65, 66, 32, 32, 9]) := by decide
+  have h2 : (str 4).dec [65, 66, 32, 32, 9] = some ([65, 66], [9]) := by decide
+  simp only [pp, RW.Canon, h1, h2]
+  decide
+example : ¬ (RW.prim (str 4) [] (fun s => RW.done s)).Canon [65, 66, 9, 32] := by
+  have h2 : (str 4).dec [65, 66, 9, 32] = some ([65, 66], []) := by decide
+  simp only [RW.Canon, h2]
+  decide
+
 /-! ### Fortran-order matrices (IORecord._rwMatrix) -/
 
 private theorem product_mem (shape ix : List Nat) : ix ∈ product shape ↔ List.Forall₂ (· < ·) ix shape := by
@@ -719,6 +737,8 @@ theorem band_row_roundtrip {β} (row : List β) (dflt : β) (jup jband : Nat) (h
 example : bandPlace 0 8 (bandCols 7 3) (bandWrite [0, 0, 0, 0, 14, 15, 16, 0] 7 3) = [0, 0, 0, 0, 14, 15, 16, 0] := by decide
 example : matrixOrder [2, 3] = [[0, 0], [1, 0], [2, 0], [0, 1], [1, 1], [2, 1]] := by decide
 example : getBlockBandwidth 2 5 2 = some (3, 4) ∧ bandLow 5 2 1 = 3 ∧ bandWidth 5 2 1 = 2 := by decide
+/-- a block count that leaves the last block empty: nintj = 5, nblok = 4 gives widths 2, 2, 1, 0 -/
+example : (List.range 4).map (bandWidth 5 4) = [2, 2, 1, 0] ∧ getBlockBandwidth 4 5 4 = some (6, 4) := by decide
 example : bandCols 7 3 = [6, 5, 4] ∧ bandWrite [10, 11, 12, 13, 14, 15, 16, 17] 7 3 = [16, 15, 14] := by decide
 
 /-! ### ASCII-mode fixed-width fields -/
